@@ -32,6 +32,8 @@ Proof.
 Qed.
 
 Section DecodeTrait.
+  Variable k : skels.
+  Hypothesis Hk : skels_ok k = true.
   Variable d : defn.
   Variable o : opts.
   Variable t : tables.
@@ -49,89 +51,98 @@ Section DecodeTrait.
   (* ---------------- JSON *)
   (* untyped string constants are plain strings: matched by the very first attempt *)
   Lemma json_plain_string : forall jv s, jv_null jv = false -> cellv = DStr s -> jv_string jv = Some s ->
-    unambiguous t (json_attempts t jv) owner -> decode_json t jv = Some owner.
+    unambiguous t (json_attempts_sk k t jv) owner -> decode_json_sk k t jv = Some owner.
   Proof.
-    intros jv s Hnn Hcell Hs Hu. apply (decode_trait_json d o t Hwf Hgen c r jv Hc Hp Hr Hnn); [|exact Hu].
-    fold cellv. rewrite Hcell. unfold json_attempts, json_attempts_gen. rewrite Hs. apply in_or_app. left. left. reflexivity.
+    intros jv s Hnn Hcell Hs Hu. apply (decode_trait_json_sk d o t Hwf Hgen k Hk c r jv Hc Hp Hr Hnn); [|exact Hu].
+    fold cellv. rewrite Hcell. apply (steps_try_plain t CoJSON _ (dv_of_j jv) s (json_complete k Hk) Hs).
   Qed.
   Lemma json_typed_string : forall jv s, jv_null jv = false -> col_kind c = KString -> ti_json_own (col_info c) = false ->
     cellv = typed c (PStr s) -> jv_string jv = Some s ->
-    unambiguous t (json_attempts t jv) owner -> decode_json t jv = Some owner.
+    unambiguous t (json_attempts_sk k t jv) owner -> decode_json_sk k t jv = Some owner.
   Proof.
-    intros jv s Hnn Hk Ho Hcell Hs Hu. apply (decode_trait_json d o t Hwf Hgen c r jv Hc Hp Hr Hnn); [|exact Hu].
-    fold cellv. rewrite Hcell. apply json_tries_string; [|assumption]. apply in_family; assumption.
+    intros jv s Hnn Hk' Ho Hcell Hs Hu. apply (decode_trait_json_sk d o t Hwf Hgen k Hk c r jv Hc Hp Hr Hnn); [|exact Hu].
+    fold cellv. rewrite Hcell. apply (steps_try_string t CoJSON _ (dv_of_j jv) c s (json_complete k Hk)); [|exact Hs].
+    apply in_family; assumption.
   Qed.
   Lemma json_int : forall jv z, jv_null jv = false -> col_kind c = KInt64 -> ti_json_own (col_info c) = false ->
     cellv = typed_int c z -> conv_int (col_bkind c) z = z -> jv_i64 jv = Some z ->
-    unambiguous t (json_attempts t jv) owner -> decode_json t jv = Some owner.
+    unambiguous t (json_attempts_sk k t jv) owner -> decode_json_sk k t jv = Some owner.
   Proof.
-    intros jv z Hnn Hk Ho Hcell Hfit Hs Hu. apply (decode_trait_json d o t Hwf Hgen c r jv Hc Hp Hr Hnn); [|exact Hu].
-    fold cellv. rewrite Hcell. apply json_tries_int; [|assumption|exact Hfit]. apply in_family; assumption.
+    intros jv z Hnn Hk' Ho Hcell Hfit Hs Hu. apply (decode_trait_json_sk d o t Hwf Hgen k Hk c r jv Hc Hp Hr Hnn); [|exact Hu].
+    fold cellv. rewrite Hcell. apply (steps_try_int t CoJSON _ (dv_of_j jv) c z (json_complete k Hk)); try assumption; [discriminate|].
+    apply in_family; assumption.
   Qed.
   Lemma json_uint : forall jv z, jv_null jv = false -> col_kind c = KUint64 -> ti_json_own (col_info c) = false ->
     cellv = typed_int c z -> conv_int (col_bkind c) z = z -> jv_u64 jv = Some z ->
-    unambiguous t (json_attempts t jv) owner -> decode_json t jv = Some owner.
+    unambiguous t (json_attempts_sk k t jv) owner -> decode_json_sk k t jv = Some owner.
   Proof.
-    intros jv z Hnn Hk Ho Hcell Hfit Hs Hu. apply (decode_trait_json d o t Hwf Hgen c r jv Hc Hp Hr Hnn); [|exact Hu].
-    fold cellv. rewrite Hcell. apply json_tries_uint; [|assumption|exact Hfit]. apply in_family; assumption.
+    intros jv z Hnn Hk' Ho Hcell Hfit Hs Hu. apply (decode_trait_json_sk d o t Hwf Hgen k Hk c r jv Hc Hp Hr Hnn); [|exact Hu].
+    fold cellv. rewrite Hcell. apply (steps_try_uint t CoJSON _ (dv_of_j jv) c z (json_complete k Hk)); try assumption; [discriminate|].
+    apply in_family; assumption.
   Qed.
   Lemma json_native : forall jv p, jv_null jv = false -> ti_json_own (col_info c) = true ->
     cellv = typed c p -> lookup (col_type c) (jv_native jv) = Some (Some p) ->
-    unambiguous t (json_attempts t jv) owner -> decode_json t jv = Some owner.
+    unambiguous t (json_attempts_sk k t jv) owner -> decode_json_sk k t jv = Some owner.
   Proof.
-    intros jv p Hnn Ho Hcell Hs Hu. apply (decode_trait_json d o t Hwf Hgen c r jv Hc Hp Hr Hnn); [|exact Hu].
-    fold cellv. rewrite Hcell. apply json_tries_native; [|assumption]. apply in_family_own; assumption.
+    intros jv p Hnn Ho Hcell Hs Hu. apply (decode_trait_json_sk d o t Hwf Hgen k Hk c r jv Hc Hp Hr Hnn); [|exact Hu].
+    fold cellv. rewrite Hcell. apply (steps_try_own t CoJSON _ (dv_of_j jv) c p (json_complete k Hk)); [|exact Hs].
+    apply in_family_own; assumption.
   Qed.
 
-  (* ---------------- YAML (repaired guards) *)
-  Lemma yaml_plain_string : forall yv s, cellv = DStr s -> yv_value yv = s ->
-    unambiguous t (yaml_attempts_gen true t yv) owner -> decode_yaml t yv = Some owner.
+  (* ---------------- YAML *)
+  Lemma yaml_plain_string : forall yv s, yv_scalar yv = true -> cellv = DStr s -> yv_value yv = s ->
+    unambiguous t (yaml_attempts_sk k t yv) owner -> decode_yaml_sk k t yv = Some owner.
   Proof.
-    intros yv s Hcell Hs Hu. apply (decode_trait_yaml d o t Hwf Hgen c r yv Hc Hp Hr); [|exact Hu].
-    fold cellv. rewrite Hcell. unfold yaml_attempts_gen, yaml_attempts_gen2. left. rewrite Hs. reflexivity.
+    intros yv s Hsc Hcell Hs Hu. apply (decode_trait_yaml_sk d o t Hwf Hgen k Hk c r yv Hc Hp Hr Hsc); [|exact Hu].
+    fold cellv. rewrite Hcell, <- Hs. apply (steps_try_plain t CoYAML _ (dv_of_y yv) _ (yaml_complete k Hk)). reflexivity.
   Qed.
-  Lemma yaml_typed_string : forall yv s, col_kind c = KString -> ti_yaml_own (col_info c) = false ->
+  Lemma yaml_typed_string : forall yv s, yv_scalar yv = true -> col_kind c = KString -> ti_yaml_own (col_info c) = false ->
     cellv = typed c (PStr s) -> yv_value yv = s ->
-    unambiguous t (yaml_attempts_gen true t yv) owner -> decode_yaml t yv = Some owner.
+    unambiguous t (yaml_attempts_sk k t yv) owner -> decode_yaml_sk k t yv = Some owner.
   Proof.
-    intros yv s Hk Ho Hcell Hs Hu. apply (decode_trait_yaml d o t Hwf Hgen c r yv Hc Hp Hr); [|exact Hu].
-    fold cellv. rewrite Hcell, <- Hs. apply yaml_tries_string. apply in_family; assumption.
+    intros yv s Hsc Hk' Ho Hcell Hs Hu. apply (decode_trait_yaml_sk d o t Hwf Hgen k Hk c r yv Hc Hp Hr Hsc); [|exact Hu].
+    fold cellv. rewrite Hcell, <- Hs. apply (steps_try_string t CoYAML _ (dv_of_y yv) c _ (yaml_complete k Hk)); [|reflexivity].
+    apply in_family; assumption.
   Qed.
-  Lemma yaml_int : forall yv z, col_kind c = KInt64 -> ti_yaml_own (col_info c) = false ->
+  Lemma yaml_int : forall yv z, yv_scalar yv = true -> col_kind c = KInt64 -> ti_yaml_own (col_info c) = false ->
     cellv = typed_int c z -> conv_int (col_bkind c) z = z -> yv_i64 yv = Some z ->
-    unambiguous t (yaml_attempts_gen true t yv) owner -> decode_yaml t yv = Some owner.
+    unambiguous t (yaml_attempts_sk k t yv) owner -> decode_yaml_sk k t yv = Some owner.
   Proof.
-    intros yv z Hk Ho Hcell Hfit Hs Hu. apply (decode_trait_yaml d o t Hwf Hgen c r yv Hc Hp Hr); [|exact Hu].
-    fold cellv. rewrite Hcell. apply yaml_tries_int; [|assumption|exact Hfit]. apply in_family; assumption.
+    intros yv z Hsc Hk' Ho Hcell Hfit Hs Hu. apply (decode_trait_yaml_sk d o t Hwf Hgen k Hk c r yv Hc Hp Hr Hsc); [|exact Hu].
+    fold cellv. rewrite Hcell. apply (steps_try_int t CoYAML _ (dv_of_y yv) c z (yaml_complete k Hk)); try assumption; [discriminate|].
+    apply in_family; assumption.
   Qed.
-  Lemma yaml_uint : forall yv z, col_kind c = KUint64 -> ti_yaml_own (col_info c) = false ->
+  Lemma yaml_uint : forall yv z, yv_scalar yv = true -> col_kind c = KUint64 -> ti_yaml_own (col_info c) = false ->
     cellv = typed_int c z -> conv_int (col_bkind c) z = z -> yv_u64 yv = Some z ->
-    unambiguous t (yaml_attempts_gen true t yv) owner -> decode_yaml t yv = Some owner.
+    unambiguous t (yaml_attempts_sk k t yv) owner -> decode_yaml_sk k t yv = Some owner.
   Proof.
-    intros yv z Hk Ho Hcell Hfit Hs Hu. apply (decode_trait_yaml d o t Hwf Hgen c r yv Hc Hp Hr); [|exact Hu].
-    fold cellv. rewrite Hcell. apply yaml_tries_uint; [|assumption|exact Hfit]. apply in_family; assumption.
+    intros yv z Hsc Hk' Ho Hcell Hfit Hs Hu. apply (decode_trait_yaml_sk d o t Hwf Hgen k Hk c r yv Hc Hp Hr Hsc); [|exact Hu].
+    fold cellv. rewrite Hcell. apply (steps_try_uint t CoYAML _ (dv_of_y yv) c z (yaml_complete k Hk)); try assumption; [discriminate|].
+    apply in_family; assumption.
   Qed.
-  Lemma yaml_native : forall yv p, ti_yaml_own (col_info c) = true ->
+  Lemma yaml_native : forall yv p, yv_scalar yv = true -> ti_yaml_own (col_info c) = true ->
     cellv = typed c p -> lookup (col_type c) (yv_native yv) = Some (Some p) ->
-    unambiguous t (yaml_attempts_gen true t yv) owner -> decode_yaml t yv = Some owner.
+    unambiguous t (yaml_attempts_sk k t yv) owner -> decode_yaml_sk k t yv = Some owner.
   Proof.
-    intros yv p Ho Hcell Hs Hu. apply (decode_trait_yaml d o t Hwf Hgen c r yv Hc Hp Hr); [|exact Hu].
-    fold cellv. rewrite Hcell. apply yaml_tries_native; [|assumption]. apply in_family_own; assumption.
+    intros yv p Hsc Ho Hcell Hs Hu. apply (decode_trait_yaml_sk d o t Hwf Hgen k Hk c r yv Hc Hp Hr Hsc); [|exact Hu].
+    fold cellv. rewrite Hcell. apply (steps_try_own t CoYAML _ (dv_of_y yv) c p (yaml_complete k Hk)); [|exact Hs].
+    apply in_family_own; assumption.
   Qed.
 
   (* ---------------- text (string-typed traits) *)
   Lemma text_plain_string : forall tv s, cellv = DStr s -> tv_text tv = s ->
-    unambiguous t (text_attempts t tv) owner -> decode_text t tv = Some owner.
+    unambiguous t (text_attempts_sk k t tv) owner -> decode_text_sk k t tv = Some owner.
   Proof.
-    intros tv s Hcell Hs Hu. apply (decode_trait_text d o t Hwf Hgen c r tv Hc Hp Hr); [|exact Hu].
-    fold cellv. rewrite Hcell. unfold text_attempts. left. rewrite Hs. reflexivity.
+    intros tv s Hcell Hs Hu. apply (decode_trait_text_sk d o t Hwf Hgen k Hk c r tv Hc Hp Hr); [|exact Hu].
+    fold cellv. rewrite Hcell, <- Hs. apply (steps_try_plain t CoText _ (dv_of_t tv) _ (text_complete k Hk)). reflexivity.
   Qed.
   Lemma text_typed_string : forall tv s, col_kind c = KString -> ti_text_own (col_info c) = false ->
     cellv = typed c (PStr s) -> tv_text tv = s ->
-    unambiguous t (text_attempts t tv) owner -> decode_text t tv = Some owner.
+    unambiguous t (text_attempts_sk k t tv) owner -> decode_text_sk k t tv = Some owner.
   Proof.
-    intros tv s Hk Ho Hcell Hs Hu. apply (decode_trait_text d o t Hwf Hgen c r tv Hc Hp Hr); [|exact Hu].
-    fold cellv. rewrite Hcell, <- Hs. apply text_tries_string. apply in_family; assumption.
+    intros tv s Hk' Ho Hcell Hs Hu. apply (decode_trait_text_sk d o t Hwf Hgen k Hk c r tv Hc Hp Hr); [|exact Hu].
+    fold cellv. rewrite Hcell, <- Hs. apply (steps_try_string t CoText _ (dv_of_t tv) c _ (text_complete k Hk)); [|reflexivity].
+    apply in_family; assumption.
   Qed.
 End DecodeTrait.
 
@@ -146,11 +157,12 @@ Definition json_holds (c : column) (jv : jview) (x : dyn) : Prop :=
   end.
 
 Definition C12_full_statement : Prop :=
+  forall k, skels_ok k = true ->
   forall d o t, wf_defn d -> gen d o = Built t ->
   forall c r jv, In c (t_cols t) -> col_parsable c = true -> In r (col_rows c) ->
   jv_null jv = false -> json_holds c jv (cl_val (r_cell r)) ->
-  unambiguous t (json_attempts t jv) (g_z (r_owner r)) ->
-  decode_json t jv = Some (g_z (r_owner r)).
+  unambiguous t (json_attempts_sk k t jv) (g_z (r_owner r)) ->
+  decode_json_sk k t jv = Some (g_z (r_owner r)).
 
 (* refuted by a parsable bool trait: Parse<T>(true) works, JSON `true` does not decode *)
 Definition bw_cell (var : string) (b : bool) : cell :=
@@ -185,8 +197,8 @@ Proof.
   assert (Hgen : gen bw_defn bw_opts = Built t) by (vm_compute; reflexivity).
   set (c := hd {| col_name := ""; col_type := ""; col_info := {| ti_bkind := BNonBasic; ti_json_own := false; ti_yaml_own := false; ti_text_own := false |}; col_parsable := false; col_rows := [] |} (t_cols t)).
   set (r := nth 1 (col_rows c) {| r_owner := to_gvalue {| c_name := ""; c_val := 0; c_dep := false; c_cells := [] |}; r_cell := bw_cell "" false; r_valstr := "" |}).
-  specialize (H bw_defn bw_opts t bw_wf Hgen c r bw_true).
-  assert (E : decode_json t bw_true = Some (g_z (r_owner r))).
+  specialize (H cur_skels cur_skels_ok bw_defn bw_opts t bw_wf Hgen c r bw_true).
+  assert (E : decode_json_sk cur_skels t bw_true = Some (g_z (r_owner r))).
   { apply H.
     - vm_compute. left. reflexivity.
     - vm_compute. reflexivity.
@@ -212,13 +224,13 @@ Definition yaml_holds_decodable (c : column) (yv : yview) (x : dyn) : Prop :=
   \/ (exists z, col_kind c = KUint64 /\ ti_yaml_own (col_info c) = false /\ x = typed_int c z /\ conv_int (col_bkind c) z = z /\ yv_u64 yv = Some z)
   \/ (exists p, ti_yaml_own (col_info c) = true /\ x = typed c p /\ lookup (col_type c) (yv_native yv) = Some (Some p)).
 
-Lemma json_partial : forall d o t, wf_defn d -> gen d o = Built t ->
+Lemma json_partial : forall k, skels_ok k = true -> forall d o t, wf_defn d -> gen d o = Built t ->
   forall c r jv, In c (t_cols t) -> col_parsable c = true -> In r (col_rows c) ->
   jv_null jv = false -> json_holds_decodable c jv (cl_val (r_cell r)) ->
-  unambiguous t (json_attempts t jv) (g_z (r_owner r)) ->
-  decode_json t jv = Some (g_z (r_owner r)).
+  unambiguous t (json_attempts_sk k t jv) (g_z (r_owner r)) ->
+  decode_json_sk k t jv = Some (g_z (r_owner r)).
 Proof.
-  intros d o t Hwf Hg c r jv Hc Hp Hr Hnn H Hu.
+  intros k Hk d o t Hwf Hg c r jv Hc Hp Hr Hnn H Hu.
   destruct H as [[s [E V]]|[[s [K [O [E V]]]]|[[z [K [O [E [F V]]]]]|[[z [K [O [E [F V]]]]]|[p [O [E V]]]]]]].
   - eapply json_plain_string; eauto.
   - eapply json_typed_string; eauto.
@@ -227,13 +239,13 @@ Proof.
   - eapply json_native; eauto.
 Qed.
 
-Lemma yaml_partial : forall d o t, wf_defn d -> gen d o = Built t ->
+Lemma yaml_partial : forall k, skels_ok k = true -> forall d o t, wf_defn d -> gen d o = Built t ->
   forall c r yv, In c (t_cols t) -> col_parsable c = true -> In r (col_rows c) ->
-  yaml_holds_decodable c yv (cl_val (r_cell r)) ->
-  unambiguous t (yaml_attempts_gen true t yv) (g_z (r_owner r)) ->
-  decode_yaml t yv = Some (g_z (r_owner r)).
+  yv_scalar yv = true -> yaml_holds_decodable c yv (cl_val (r_cell r)) ->
+  unambiguous t (yaml_attempts_sk k t yv) (g_z (r_owner r)) ->
+  decode_yaml_sk k t yv = Some (g_z (r_owner r)).
 Proof.
-  intros d o t Hwf Hg c r yv Hc Hp Hr H Hu.
+  intros k Hk d o t Hwf Hg c r yv Hc Hp Hr Hsc H Hu.
   destruct H as [[s [E V]]|[[s [K [O [E V]]]]|[[z [K [O [E [F V]]]]]|[[z [K [O [E [F V]]]]]|[p [O [E V]]]]]]].
   - eapply yaml_plain_string; eauto.
   - eapply yaml_typed_string; eauto.
